@@ -57,6 +57,7 @@ from whatshap.utils import plural_s, warn_once
 from whatshap.cli import CommandLineError, log_memory_usage, PhasedInputReader
 from whatshap.merge import ReadMerger, DoNothingReadMerger, ReadMergerBase
 from whatshap.types import PhasingAlgorithm
+from whatshap import _verif_trace
 
 __author__ = "Murray Patterson, Alexander Schönhuth, Tobias Marschall, Marcel Martin"
 
@@ -497,6 +498,7 @@ def run_whatshap(
 
                 # Get the reads belonging to each sample
                 readsets = dict()  # TODO this could become a list
+                _verif_candidates = dict()
                 for sample in family:
                     with timers("read_bam"):
                         readset, vcf_source_ids = phased_input_reader.read(
@@ -523,6 +525,12 @@ def run_whatshap(
                             )
 
                     readsets[sample] = selected_reads
+                    if _verif_trace.enabled():
+                        _verif_candidates[sample] = {
+                            "reads": _verif_trace.dump_readset(readset),
+                            "preferred_source_ids": sorted(vcf_source_ids),
+                            "selected": _verif_trace.dump_readset(selected_reads),
+                        }
                     if len(family) == 1 and not distrust_genotypes:
                         # When having a pedigree (len(family) > 1), blocks are also merged after
                         # phasing based on the pedigree information and these statistics are not
@@ -614,6 +622,32 @@ def run_whatshap(
                         superreads_list,
                     )
                     log_component_stats(overall_components, len(accessible_positions))
+
+                if _verif_trace.enabled():
+                    _verif_trace.trace_family(
+                        chromosome=chromosome,
+                        family=list(family),
+                        trios=trios,
+                        algorithm=algorithm,
+                        distrust_genotypes=distrust_genotypes,
+                        genetic_haplotyping=genetic_haplotyping,
+                        include_homozygous=include_homozygous,
+                        max_coverage=max_coverage,
+                        max_coverage_per_sample=max_coverage_per_sample,
+                        candidates=_verif_candidates,
+                        all_reads=all_reads,
+                        accessible_positions=list(accessible_positions),
+                        homozygous_positions=sorted(homozygous_positions),
+                        recombination_costs=list(recombination_costs),
+                        transmission_vector=None
+                        if transmission_vector is None
+                        else list(transmission_vector),
+                        numeric_sample_ids=numeric_sample_ids,
+                        pedigree=pedigree,
+                        dp_table=dp_table,
+                        superreads_list=superreads_list,
+                        overall_components=overall_components,
+                    )
 
                 if recombination_list_filename:
                     assert transmission_vector is not None
